@@ -213,6 +213,72 @@ func capWake(n int) string {
 	return fmt.Sprintf("woken=%d hung=%d", got, hung)
 }
 
+// nilWake: values are interface{} and nil is one of them. A Get parked on an empty buffer is woken by Put(nil) and returns it;
+// nil values in the middle of a batch are read in their place like any other value.
+func nilWake(parkFirst bool) string {
+	b := new(bigbuff.Buffer)
+	defer func() { go b.Close() }()
+	bg := context.Background()
+	c, err := b.NewConsumer()
+	if err != nil {
+		return "setup-error"
+	}
+	show := func(v interface{}, err error) string {
+		if err != nil {
+			return "err:" + strings.ReplaceAll(canonErr(err), " ", "_")
+		}
+		if v == nil {
+			return "nil"
+		}
+		return fmt.Sprint(v)
+	}
+	get := func() string {
+		ctx, cancel := context.WithTimeout(bg, hangTimeout)
+		defer cancel()
+		v, err := c.Get(ctx)
+		if err != nil && ctx.Err() != nil {
+			return "hang"
+		}
+		return show(v, err)
+	}
+	first := ""
+	if parkFirst {
+		parked := make(chan struct{}, 8)
+		rm := hk.On(func(e hk.Event) {
+			if e.Name == "buf.get.pending" {
+				select {
+				case parked <- struct{}{}:
+				default:
+				}
+			}
+		})
+		out := make(chan string, 1)
+		go func() { out <- get() }()
+		select {
+		case <-parked:
+		case <-time.After(hangTimeout):
+			rm()
+			return "gets-never-parked"
+		}
+		rm()
+		time.Sleep(time.Millisecond)
+		b.Put(bg, nil)
+		first = <-out
+	} else {
+		b.Put(bg, nil)
+		first = get()
+	}
+	if err := c.Commit(); err != nil {
+		return "woke=" + first + " commit-error"
+	}
+	b.Put(bg, 1, nil, 2)
+	var reads []string
+	for i := 0; i < 3; i++ {
+		reads = append(reads, get())
+	}
+	return "woke=" + first + " reads=" + strings.Join(reads, ",")
+}
+
 func execBufGate(t *trace, script []string) {
 	for _, line := range script {
 		f := strings.Fields(line)
@@ -221,6 +287,9 @@ func execBufGate(t *trace, script []string) {
 		}
 		if len(f) == 2 && f[0] == "capwake" {
 			t.Line(line, capWake(atoi(f[1])))
+		}
+		if len(f) == 2 && f[0] == "nilwake" {
+			t.Line(line, nilWake(f[1] == "parked"))
 		}
 	}
 }
@@ -235,6 +304,7 @@ func genBufGate(r *rng.R, tier string, i int) []string {
 	for k := 0; k < 3; k++ {
 		s = append(s, fmt.Sprintf("capwake %d", 2+r.Intn(4)))
 	}
+	s = append(s, "nilwake parked", "nilwake sync")
 	for k := len(s) - 1; k > 0; k-- {
 		j := r.Intn(k + 1)
 		s[k], s[j] = s[j], s[k]
